@@ -69,6 +69,20 @@ def random_cases(tier_, seed_):
         cases.append({"kind": "random", "i": n + i, "boundary": True, "models": [["Root", [sample]]],
                       "opts": {"framework": "base", "flat": True, "merge": policy, "max_literals": 10, "convert_unicode": True,
                                "registry": ["IntString", "FloatString", "BooleanString"], "dkf": [], "dkr": []}})
+    # key sets that a joined spelling cannot tell apart: {a, b} next to {"a<sep>b"}, {"x<sep>y", z} next to {x, "y<sep>z"}; the
+    # relation is defined on the key *sets*
+    ns = 300 if tier_ == "quick" else 4000
+    for i in range(ns):
+        rng = rng_for(PROP, "sep", seed_, i)
+        sep = rng.choice([",", ", ", "|", " ", ";", ":", "/", "\n", "\t", ".", "-", "_", "\x00", "','", "', '", "+"])
+        pool = [["a", "b"], ["a", "b"], ["a" + sep + "b"], ["x" + sep + "y", "z"], ["x", "y" + sep + "z"], ["x", "y" + sep + "z"], ["x", "y", "z"],
+                ["a" + sep, "b"], ["a", sep + "b"], ["a" + sep + "b", "c"], ["a", "b" + sep + "c"], ["a", "b", "c"]]
+        chosen = [rng.choice(pool) for _ in range(rng.randint(3, 7))]
+        sample = {f"m{j}": {k: rng.choice([1, "x", 2.5, True]) for k in ks} for j, ks in enumerate(chosen)}
+        policy = rng.choice([[["exact"]], [["percent", 0.7], ["number", 10]], [["percent", 0.7]], [["percent", 0.5]], [["percent", 1.0]], [["number", 2]]])
+        cases.append({"kind": "random", "i": n + nb + i, "separators": True, "models": [["Root", [sample]]],
+                      "opts": {"framework": "base", "flat": True, "merge": policy, "max_literals": 10, "convert_unicode": True,
+                               "registry": ["IntString", "FloatString", "BooleanString"], "dkf": [], "dkr": []}})
     return cases
 
 
